@@ -33,7 +33,23 @@
 #define GKC_ROWS_REM(d, b, r)                                                                                  \
   (GKC_M(d, r) <= (b) + 1 ? GKC_M(d, r) * (GKC_M(d, r) + 1) / 2                                                \
                           : (GKC_M(d, r) - ((b) + 1)) * ((b) + 1) + ((b) + 1) * ((b) + 2) / 2)
-#define GKC_REM(d, b, r, c) (GKC_ROWS_REM(d, b, r) - ((c) - (r)))
+#define GKC_REM_CLOSED(d, b, r, c) (GKC_ROWS_REM(d, b, r) - ((c) - (r)))
+#ifdef GKC_REM_OPAQUE
+/* CBMC never evaluates the closed form (nonlinear in symbolic d, b, r: no back end decides it).  In the CBMC checks
+   r |-> GKC_ROWS_REM(d, b, r) for the ONE matrix of the call (d == gv_tab_d, b == gv_tab_b) is an OPAQUE TABLE with
+   arbitrary content, so a CBMC proof that mentions GKC_REM holds for EVERY table that satisfies the lemma instances
+   used; z3 (lemmas.py runs cpp on this header alone, without GKC_REM_OPAQUE, which only the prelude of spec.c
+   defines) proves that the closed form is such a table.  No function contract of the unit mentions GKC_REM: it only
+   occurs in the loop invariant of finish_cov and in the lemma statements. */
+struct gkc_rows_tab { int t[GKC_MAXDIM + 2]; };
+extern struct gkc_rows_tab gv_rows_rem;
+extern int gv_tab_d, gv_tab_b;
+#define GKC_TAB_FOR(d, b) ((d) == gv_tab_d && (b) == gv_tab_b)
+#define GKC_REM(d, b, r, c) (gv_rows_rem.t[r] - ((c) - (r)))
+#else
+#define GKC_TAB_FOR(d, b) (0 == 0)
+#define GKC_REM(d, b, r, c) GKC_REM_CLOSED(d, b, r, c)
+#endif
 
 #pragma CPROVER check push
 #pragma CPROVER check enable "signed-overflow"
@@ -41,7 +57,7 @@
 /* the documented count is the number of band positions from (1,1) on */
 void gv_lemma_cov_total(int d, int b)
 __CPROVER_requires(GV_MACHINE_BOUND(d <= 32768))
-__CPROVER_requires(0 <= b && b < d)
+__CPROVER_requires(0 <= b && b < d && GKC_TAB_FOR(d, b))
 __CPROVER_assigns()
 __CPROVER_ensures(GKC_TOTAL(d, b) == GKC_REM(d, b, 1, 1) && GKC_REM(d, b, 1, 1) >= 1);
 
@@ -50,15 +66,16 @@ __CPROVER_ensures(GKC_TOTAL(d, b) == GKC_REM(d, b, 1, 1) && GKC_REM(d, b, 1, 1) 
    (lemma cov_end) this determines GKC_REM by induction along the documented order */
 void gv_lemma_cov_step(int d, int b, int r, int c)
 __CPROVER_requires(GV_MACHINE_BOUND(d <= 32768))
-__CPROVER_requires(0 <= b && b < d && 1 <= r && r <= d && r <= c && c <= r + b && c <= d)
+__CPROVER_requires(0 <= b && b < d && 1 <= r && r <= d && r <= c && c <= r + b && c <= d && GKC_TAB_FOR(d, b))
 __CPROVER_assigns()
 __CPROVER_ensures(GKC_REM(d, b, r, c) >= 1)
 __CPROVER_ensures((c + 1 <= r + b && c + 1 <= d) ==> GKC_REM(d, b, r, c + 1) == GKC_REM(d, b, r, c) - 1)
-__CPROVER_ensures(!(c + 1 <= r + b && c + 1 <= d) ==> GKC_REM(d, b, r + 1, r + 1) == GKC_REM(d, b, r, c) - 1);
+__CPROVER_ensures(!(c + 1 <= r + b && c + 1 <= d) ==> GKC_REM(d, b, r + 1, r + 1) == GKC_REM(d, b, r, c) - 1)
+__CPROVER_ensures((r == d && c == d) ==> GKC_REM(d, b, r, c) == 1);
 
 void gv_lemma_cov_end(int d, int b)
 __CPROVER_requires(GV_MACHINE_BOUND(d <= 32768))
-__CPROVER_requires(0 <= b && b < d)
+__CPROVER_requires(0 <= b && b < d && GKC_TAB_FOR(d, b))
 __CPROVER_assigns()
 __CPROVER_ensures(GKC_REM(d, b, d + 1, d + 1) == 0);
 #pragma CPROVER check pop
